@@ -387,3 +387,40 @@ class _Ctx:
 
 def stmt_nodes(cfg):
     return [n for n in cfg.nodes if n.kind not in ("ENTRY", "EXIT", "RAISE")]
+
+
+def binds_name(node, var):
+    """does CFG node (re)bind the local name var?"""
+    s = node.ast
+    if s is None:
+        return False
+    if node.kind in ("stmt",):
+        if isinstance(s, ast.Assign):
+            return any(isinstance(n, ast.Name) and n.id == var for t in s.targets for n in ast.walk(t) if isinstance(n, ast.Name) and isinstance(n.ctx, ast.Store))
+        if isinstance(s, (ast.AugAssign, ast.AnnAssign)):
+            return isinstance(s.target, ast.Name) and s.target.id == var
+        if isinstance(s, (ast.Import, ast.ImportFrom)):
+            return any((a.asname or a.name).split(".")[0] == var for a in s.names)
+        if isinstance(s, (ast.FunctionDef, ast.ClassDef)):
+            return s.name == var
+    if node.kind == "for" and isinstance(s, (ast.For, ast.AsyncFor)):
+        return any(isinstance(n, ast.Name) and n.id == var for n in ast.walk(s.target))
+    if node.kind == "with":
+        return any(it.optional_vars is not None and any(isinstance(n, ast.Name) and n.id == var for n in ast.walk(it.optional_vars)) for it in s.items)
+    if node.kind == "except" and isinstance(s, ast.ExceptHandler):
+        return s.name == var
+    return False
+
+
+def reaching_defs(cfg, var):
+    """node id -> frozenset of def node ids of `var` that reach the node's entry (ENTRY id = parameter / undefined)."""
+    def transfer(node, st, label):
+        if label == "exc" and node.kind == "stmt":
+            return st  # assignment did not complete
+        if node.kind == "for" and label == "f":
+            return st  # loop exit: target not (re)bound by this evaluation
+        if binds_name(node, var):
+            return frozenset([node.id])
+        return st
+
+    return cfg.forward(frozenset([cfg.entry.id]), transfer, lambda a, b: a | b)
